@@ -36,6 +36,10 @@ class PGateway:
         """One period of the save schedule."""
         if self.flavour == "sync":
             live = [t for t in FAKE_THREADING.live() if getattr(t.function, "__name__", "") == "schedule_save"]
+            # with several gateways in the process: the timer whose closure saves THIS gateway's nodes
+            mine = [t for t in live if any(getattr(getattr(c, "cell_contents", None), "__self__", None) is getattr(self.gw.tasks, "persistence", None)
+                                           for c in (getattr(t.function, "__closure__", None) or ()))]
+            live = mine or live
             if not live:
                 return False
             exc = live[-1].fire()
